@@ -52,6 +52,21 @@ def predicates(ctx, chain, label):
                     if d["locks"][i] == "0" and W[i][i] in ("0", "0.0"):
                         ctx.fail("C05:idle-path-with-zero-weight-in-its-slot",
                                  f"slot {i} holds path {live[i]} with zero weight there after the step", rep)
+            if tag == "treat" and d.get("_restart_active"):
+                # the restart file written at that moment: its slot order must be the (sorted) live order, and
+                # every path must have non-zero weight in the ensemble of the slot it is recorded in
+                ract = d["_restart_active"].split(",")
+                row_of = {pn: W[i] for i, pn in enumerate(live)}
+                for i, pn in enumerate(ract):
+                    r = row_of.get(pn)
+                    if r is None:
+                        ctx.fail("C05:restart-file-lists-unknown-path", f"restart.toml active {ract} vs live {live}", rep)
+                        break
+                    if r[i] in ("0", "0.0"):
+                        ctx.fail("C05:restart-file-does-not-load",
+                                 f"restart.toml written after the step records path {pn} in slot {i} where its weight is zero "
+                                 f"(active {ract}, live order in memory {live}): load_paths would assert", rep)
+                        break
             tn = int(d["trajnum"])
             newc = [int(x) for x in live if int(x) not in ever]
             for x in newc:
